@@ -310,6 +310,23 @@ REFINED = [
     "primitive-operand forms (impl_binop_with_primitive / impl_commutative_binop_with_primitive / assign forms): UBig::from / "
     "IBig::from (Repr::from_unsigned, from_signed), the operator, try_into().unwrap() for `& -> uN` — both operand orders",
     "driver-side specification search specTz (total, returns the unique count)",
+    # round 4
+    "math.rs helpers as REGENERATED text over overflow-checking machine integers (Gen/MathHelpers.lean): bit_len, ceil_log2, "
+    "ceil_div, ceil_div_usize, round_up, round_up_usize, ones_word, ones_dword, shl_dword, shr_word — total on their domain, "
+    "equal to their specification and to the hand model's ceilDiv / onesN / bitLenNat / mathShlDword / shrBits word step",
+    "inline (Small(dword)) arms with a usize argument as REGENERATED text with truncating casts (Gen/BitsSmall.lean): shr_dword, "
+    "are_dword_low_bits_nonzero, TypedReprRef::bit, clear_bit, clear_high_bits, split_bits — equal to the hand model's arm for "
+    "every usize argument (guards before casts, clamps before casts, shifts only under their guard)",
+    "word-index / bit-offset statements of the HEAP arms (`let idx / shift_words / shift_bits / n_words / n_top = …` of shl_one_spilled, "
+    "shl_dword_spilled, shl_large(_ref), shr_large(_ref), bit, clear_bit, are_slice_low_bits_nonzero, with_bit_*, "
+    "clear_high_bits_large) as REGENERATED text = n / W, n % W, ceilDiv n W of the full usize argument",
+    "Repr::ones: the inline/heap thresholds (`n < WORD_BITS`, `n <= DWORD_BITS`), the `as _` casts and the heap word counts as "
+    "REGENERATED text = reprOnes (code as it is); with the historical `<` the theorem fails",
+    "shift.rs in full: shl_in_place, shr_in_place (incl. the shift == WORD_BITS arm -> shr_in_place_one_word), "
+    "shr_in_place_with_carry (incl. a non-zero incoming carry and the shift == 0 early return), shr_in_place_one_word: mirrored in "
+    "Model/Int/Div.lean (C02's model) and proved EQUAL to the bit model's shlBits / shrBits (Props/C09Shift.lean)",
+    "the driver's evaluation of the specification for huge usize arguments (fastSpecShr, fastSpecBit, fastDivPow2, fastModPow2, "
+    "fastClearBit) = the specification, all arguments",
 ]
 FRONTIER = []
 
@@ -321,11 +338,19 @@ EXPLANATION = ("Theorems (all W >= 1, all lengths, canonical operands): the IBig
                "ones(n) = 2^n-1 and canonical; clear_high_bits = mod 2^n, split_bits = (mod, div), bit_len = floor(log2)+1; set_bit/clear_bit "
                "change exactly bit n; count_ones = popcount, count_zeros = bit_len - popcount; is_power_of_two <=> 2^k; "
                "next_power_of_two = least power of two >= x; IBig::trailing_ones of -v = trailing zeros of v-1. "
+               "Round 4: the helpers of math.rs and the inline arms of every operation with a usize argument are regenerated from the "
+               "Rust text over overflow-checking machine integers with truncating casts and proved total + equal to the hand model for "
+               "EVERY usize argument (so `(a + (b-1)) / b`, a guard after `as u32`, a clamp after a cast no longer check); the two "
+               "mirrors of shift.rs (bit model / division model) are proved to be one model; the driver evaluates the specification for "
+               "counts up to usize::MAX through guarded functions proved equal to it; for a count beyond the operand the required "
+               "results (0 / -1 / the operand / the sign bit) are stated as a theorem (beyond_the_length). "
                "For the three defects repaired during this work (754b193, 94ebcdb, 283f2ad) a separately kept model of the old "
                "code is proved correct exactly outside the defect class and wrong on the witness.")
 ASSUMPTIONS = ["machine-word primitives (&,|,^,!,<<,>>, leading/trailing_zeros, count_ones, checked_next_power_of_two) "
                "behave as their documented contracts on Nat",
                "usize/isize are 64 bits on the host that runs the harness",
+               "regenerated machine-integer text (Gen/MathHelpers, Gen/BitsSmall): an operation that overflows is `none` (debug-build "
+               "panic semantics); `2*WORD_BITS < 2^32` (a double-word bit count fits u32) for the cast-carrying arms",
                "IBig::bit_len is specified as the bit length of |x| (2 of the 3 characterisations in dashu_base::BitTest's doc; "
                "the third, 'index of the top 0 bit plus one', disagrees with them at x = -2^k)"]
 
@@ -343,7 +368,12 @@ THEOREMS = ["Dashu.Props.C09." + n for n in [
     "Dashu.Props.GenMath." + n for n in ["gen_bit_len", "gen_ceil_log2", "ceilDiv_spec", "gen_ceil_div", "gen_ceil_div_usize",
                                          "gen_round_up", "gen_round_up_usize", "gen_ones_word", "gen_ones_dword",
                                          "gen_ones_word_out_of_domain", "gen_shl_dword", "gen_shr_word",
-                                         "shrBits_step_is_shr_word"]]
+                                         "shrBits_step_is_shr_word"]] + [
+    "Dashu.Props.GenBitsSmall." + n for n in ["gen_shr_dword", "gen_are_dword_low_bits_nonzero", "gen_bit_small",
+                                              "gen_clear_bit_small", "gen_clear_high_bits_small", "gen_split_bits_small",
+                                              "gen_heap_indices", "gen_clear_high_bits_large_n_words", "gen_ones_inline"]] + [
+    "Dashu.Props.C09Shift." + n for n in ["shlBits_eq_shlLoop", "shlBits_eq_shlInPlace", "mathShlDword_eq", "shrBits_eq_shrLoop",
+                                          "shrBits_eq_shrInPlace", "div_kernels_are_generated"]]
 
 # Tie A: the IBig bit-operator sign tables are regenerated from integer/src/bits.rs on every run
 # (lean/Dashu/Gen/Glue.lean) and proved equal to the same specification as the hand model's tables
@@ -359,6 +389,14 @@ GEN_AUDIT += ["Dashu.Audit.GenIntOps"]
 # mathShlDword, the word step of shrBits)
 GEN_PROPS += ["Dashu.Props.GenMath"]
 GEN_AUDIT += ["Dashu.Audit.GenMath"]
+# Tie A, checked machine integers with truncating casts: the inline (`Small(dword)`) arms of every bit operation that takes a
+# user-supplied usize (shr_dword, are_dword_low_bits_nonzero, bit, clear_bit, clear_high_bits, split_bits) regenerated and
+# proved equal to the hand model's arm for EVERY usize argument
+GEN_PROPS += ["Dashu.Props.GenBitsSmall"]
+GEN_AUDIT += ["Dashu.Audit.GenBitsSmall"]
+# the two mirrors of shift.rs / math.rs (bit model, division model) are one model, and its word kernels are the regenerated text
+GEN_PROPS += ["Dashu.Props.C09Shift"]
+GEN_AUDIT += ["Dashu.Audit.C09Shift"]
 
 LEVEL_TEXT = ("Machine-checked Lean 4 theorems, for every word size and operand length, that the sign-case tables of & | ^ ! "
               "(also as regenerated from integer/src/bits.rs on every run) "
@@ -371,7 +409,10 @@ LEVEL_TEXT = ("Machine-checked Lean 4 theorems, for every word size and operand 
               "multiples of the word size and beyond the length. Every operation named in the property (incl. set_bit/clear_bit, "
               "count_ones/zeros, is/next_power_of_two, trailing_ones of negatives) has its refinement theorem; the primitive-operand "
               "forms are proved equal to the operator on the converted values (using C06's conversion models) incl. the "
-              "no-panic fact of `& -> uN`.")
+              "no-panic fact of `& -> uN`. Tie A (regenerated on every run, theorems re-checked): the IBig sign tables, the sign "
+              "handling of IBig >>, the ten arithmetic helpers of math.rs and the six inline arms taking a usize — the latter two "
+              "over overflow-checking machine integers with truncating casts, for every usize argument. Shift counts / bit positions "
+              "up to usize::MAX are driven through every operation that is cheap there.")
 LEVEL_NOTE = ("Trusted: Lean kernel; axioms propext/Classical.choice/Quot.sound; the correspondence harness and generators "
               "(sampling) for the tie model<->code; machine-word primitives at their documented contracts; operands assumed "
               "canonical (producer side is C05/C17). Items listed under frontier_kernels are decided by the correspondence "
